@@ -91,6 +91,8 @@ class Evaluator:
         elif k == 'ret':
             raise _Return(self.ev(s['e'], fn, this, env, depth) if s.get('e') is not None else None)
         elif k == 'if':
+            if s.get('cv'):       # `if (auto* logger = _core.logger)`: the condition variable is declared first
+                self.exec_stmt({'s': 'decl', 'vars': [s['cv']]}, fn, this, env, depth)
             c = self.truth(self.ev(s['c'], fn, this, env, depth))
             if c:
                 self.exec_stmt(s['t'], fn, this, env, depth)
